@@ -1,4 +1,4 @@
-check("C10", "model_checking Under `--wasm` every structure of MC_Layout is measured by the real binary (`|:T|`, through a constant, `|:[3]T|`; values read off the IR) against Layout.tla SizeOfT with 4-byte pointers and usize.",
+check("C10", "model_checking",
       "TLC evaluates constant expressions (operator matrix and depth-2 trees) with the same Machine.tla that defines run-time "
       "behaviour, and lengths and sizes with Layout.tla; every cell is compiled three ways (constant with literal operands, chain "
       "of named constants in reverse dependency order, run time from variables) and every printed value is compared with the "
@@ -6,7 +6,7 @@ check("C10", "model_checking Under `--wasm` every structure of MC_Layout is meas
       "Also: cast chains 3 deep, mixed constant expressions (|:T| x casts x other constants, MC_MachineConst: TLC checks constant = run time as an "
       "invariant), aggregate constants with computed members, lengths that are chains of constant expressions in 10 positions, each pack with its "
       "constants in dependency order, in reverse order and after all functions; huge types (2^29..2^33 bytes, Wide.tla limbs); pointer-to-array, "
-      "array-of-pointers, words of every size in MC_Layout.",
+      "array-of-pointers, words of every size in MC_Layout. Under `--wasm` every structure of MC_Layout is measured by the real binary (`|:T|`, through a constant, `|:[3]T|`; values read off the IR) against Layout.tla SizeOfT with 4-byte pointers and usize.",
       "Trusted: TLC, Machine.tla/Wide.tla, Layout.tla (layout rule from the property + size_of_struct sample), decimal<->limb conversion. "
       "Bounds: quick operator matrix all types + trees on {i8,i32,u16,u64}, structures <=3 members; thorough trees on all 11 types, <=4 members.",
       "TLA+ semantics (Machine.tla, Layout.tla) evaluated by TLC, exhaustive cell enumeration replayed on the compiler (const vs const-chain vs run time)",
